@@ -8,6 +8,8 @@ import EnrVerif.Props.C10
 import EnrVerif.Proofs.KeccakLemmas
 import EnrVerif.Model.NodeId
 import EnrVerif.Model.Schemes
+import EnrVerif.Proofs.SecpShape
+import EnrVerif.Proofs.SchemeLemmas
 
 namespace EnrVerif
 
@@ -42,6 +44,83 @@ theorem C10_decoded_nodeId_length (S : Scheme) (hd : S.digest = keccak256) (buf 
     (rest : Bytes) (h : decode S buf = .ok (r, rest)) : r.nodeId.length = 32 :=
   C10_nodeId_length S hd r (decode_valid S buf r rest h)
 
+/-! ### the hashed preimage is the 64-byte `x ‖ y` (compressed public-key entries, the form EIP-778
+    prescribes).  `nodeId_spec` says `nodeId = digest (uncompressed pk)`; in the model `uncompressed`
+    of an undecodable key would be the empty string, so the statement below is what excludes that:
+    the stored key always decodes again, to the very point the entry denotes. -/
+
+theorem xy_length (P : Secp.Pt) : (Secp.xy P).length = 64 := by
+  unfold Secp.xy; rw [List.length_append, natToBeFixed_length, natToBeFixed_length]
+
+/-- a 33-byte entry that k256 accepts is decompressed by `liftX` -/
+theorem decodePubK256_33 (b : Bytes) (P : Secp.Pt) (hl : b.length = 33)
+    (h : Secp.decodePubK256 b = some P) : ∃ x odd, Secp.liftX x odd = some P := by
+  cases b with
+  | nil => simp at hl
+  | cons tag rest =>
+    have hr : rest.length = 32 := by simpa using hl
+    simp only [Secp.decodePubK256] at h
+    split at h
+    · rw [if_neg (by omega)] at h; exact ⟨_, _, h⟩
+    · split at h
+      · rw [if_neg (by omega)] at h; exact ⟨_, _, h⟩
+      · split at h
+        · rw [if_pos (by omega)] at h; cases h
+        · cases h
+
+theorem decodePubLibsecp_33 (b : Bytes) (P : Secp.Pt) (hl : b.length = 33)
+    (h : Secp.decodePubLibsecp b = some P) : ∃ x odd, Secp.liftX x odd = some P := by
+  cases b with
+  | nil => simp at hl
+  | cons tag rest =>
+    have hr : rest.length = 32 := by simpa using hl
+    simp only [Secp.decodePubLibsecp] at h
+    rw [if_pos hr] at h
+    split at h
+    · exact ⟨_, _, h⟩
+    · cases h
+
+/-- k256: the node id of a valid record with a compressed key entry `b` is the Keccak-256 of the
+    64 bytes `x ‖ y` of the point `b` denotes. -/
+theorem C10_k256_preimage_is_xy (r : Record) (h : Valid k256S r) (b : Bytes)
+    (hb : pubEntry r.content kSecp = .ok b) (h33 : b.length = 33) :
+    ∃ P, Secp.decodePubK256 b = some P ∧ r.nodeId = keccak256 (Secp.xy P) ∧ (Secp.xy P).length = 64 := by
+  obtain ⟨pk, hpk, hn⟩ := nodeId_spec k256S r h
+  obtain ⟨b', P, hb', hP, rfl⟩ := secpEnrToPublic_ok_inv _ _ _ _ hpk
+  rw [hb] at hb'
+  cases hb'
+  obtain ⟨x, odd, hx⟩ := decodePubK256_33 b P h33 hP
+  refine ⟨P, hP, ?_, xy_length P⟩
+  rw [hn]
+  show keccak256 (secpUncompressed (Secp.compress P)) = _
+  unfold secpUncompressed
+  rw [decodePubK256_compress_of_liftX x odd P hx]
+
+/-- the same for the rust-secp256k1 back-end -/
+theorem C10_libsecp_preimage_is_xy (r : Record) (h : Valid libsecpS r) (b : Bytes)
+    (hb : pubEntry r.content kSecp = .ok b) (h33 : b.length = 33) :
+    ∃ P, Secp.decodePubLibsecp b = some P ∧ r.nodeId = keccak256 (Secp.xy P) ∧ (Secp.xy P).length = 64 := by
+  obtain ⟨pk, hpk, hn⟩ := nodeId_spec libsecpS r h
+  obtain ⟨b', P, hb', hP, rfl⟩ := secpEnrToPublic_ok_inv _ _ _ _ hpk
+  rw [hb] at hb'
+  cases hb'
+  obtain ⟨x, odd, hx⟩ := decodePubLibsecp_33 b P h33 hP
+  refine ⟨P, hP, ?_, xy_length P⟩
+  rw [hn]
+  show keccak256 (secpUncompressed (Secp.compress P)) = _
+  unfold secpUncompressed
+  rw [decodePubK256_compress_of_liftX x odd P hx]
+
+/-- ed25519: the preimage is the 32 key bytes themselves. -/
+theorem C10_ed_preimage_is_key (r : Record) (h : Valid edS r) :
+    ∃ pk, pubEntry r.content kEd = .ok pk ∧ pk.length = 32 ∧ r.nodeId = keccak256 pk := by
+  obtain ⟨pk, hpk, hn⟩ := nodeId_spec edS r h
+  obtain ⟨he, hl, _⟩ := edEnrToPublic_ok_inv _ _ hpk
+  exact ⟨pk, he, hl, hn⟩
+
+#print axioms C10_k256_preimage_is_xy
+#print axioms C10_libsecp_preimage_is_xy
+#print axioms C10_ed_preimage_is_key
 #print axioms C10_nodeId_length
 #print axioms C10_nodeId_wf
 end EnrVerif
